@@ -61,7 +61,7 @@ def run(tier, corrupt=0):
         # more expressions and instants on every constructor combination that builds an evaluator: the table row says which Rust
         # context is equivalent, whatever the (valid) expression
         more_exprs = ["2099 Dec 31 22:00-26:00", "Mo-Fr 10:00-12:00 \"x\" ; PH off", "week 1-53/2 Sa 08:00-20:00", "easter -2 days-easter +1 day",
-                      "24/7 ; Dec 25-Jan 5 off \"holidays\"", "sunset-sunrise", "9999 Dec", "Jan-Mar Mo[1] 10:00-12:00 unknown",
+                      "24/7 ; Dec 25-Jan 5 off \"holidays\"", "sunset-sunrise", "9999Dec", "Jan-Mar Mo[1] 10:00-12:00 unknown",
                       "Mo-Sa 08:00-20:00 ; SH off", "(sunrise+01:00)-(dusk-00:30) ; PH,Su closed", "2020-2030/3 Fr[-1] 22:00-28:00", "Sa,Su 10:00+"]
         more_walls = ["1900-01-01T00:00:00", "1899-12-31T23:59:00", "9999-12-31T23:30:00", "2024-03-31T03:30:00", "2024-12-25T00:00:00",
                       "2031-11-02T01:30:00"]
